@@ -353,6 +353,9 @@ class PropertyCheck:
                 batch = []
                 if len(self.violations) >= 3:
                     return False
+                if getattr(self, '_search_deadline', None) and time.time() > self._search_deadline:
+                    print('NOTE failing-input search stopped at its time limit')
+                    return True
         if batch:
             self._process_batch(batch, oracle_only)
         return len(self.violations) < 3
@@ -558,12 +561,14 @@ class PropertyCheck:
         saved = (self.evaluations,)
         mult = os.environ.get('VERIF_BUDGET_MULT', '1')
         os.environ['VERIF_BUDGET_MULT'] = str(float(mult) * 5)
+        self._search_deadline = time.time() + (150 if self.tier == 'quick' else 900)
         try:
             self.process(self.search_cases(around), oracle_only=True)
         except Exception as e:
             print('NOTE search aborted: %r' % (e,))
         finally:
             os.environ['VERIF_BUDGET_MULT'] = mult
+            self._search_deadline = None
         if len(self.violations) > n0:
             case, msg, _ = self.violations[n0]
             try:
